@@ -63,13 +63,17 @@ def suites():
         # map of the re-import also comes without the area (recomputed) - loaded positions must survive
         "x_seg13o": (variant("seg13", "x_seg13o", rebuild={"shift": 0, "posoff": True},
                              formats=["csv", "geff", "geff_na", "internal"]), 40, 400),
+        # per-axis positions with the lineage feature switched off (its values are still on the graph)
+        "x_peraxisd": (variant("struct3p", "x_peraxisd", disable=["lid"]), 40, 400),
+        # a label in the array that belongs to no node (an unselected detection)
+        "x_seg13u": (variant("seg13", "x_seg13u", rebuild={"shift": 0, "orphan": True}, formats=["geff", "internal"]), 40, 400),
         "x_seg13b": (variant("seg13", "x_seg13b", rebuild={"shift": -300}, seg_dtype="uint8"), 40, 600),
     }
 
 
-PLAN = {"C14": ["x_struct4", "x_struct0", "x_structc", "x_peraxis", "x_structk", "x_seg13", "x_seg13n", "x_seg3d", "x_featns", "x_feat13", "x_seg13o"],
+PLAN = {"C14": ["x_struct4", "x_struct0", "x_structc", "x_peraxis", "x_structk", "x_seg13", "x_seg13n", "x_seg3d", "x_featns", "x_feat13", "x_seg13o", "x_seg13u"],
         "C15": ["x_struct4", "x_struct0", "x_seg13e", "x_seg13f", "x_seg3d", "x_seg13b"],
-        "C16": ["x_struct4", "x_struct0", "x_peraxis", "x_structk", "x_structz", "x_structzf", "x_structzc", "x_seg13e", "x_seg13f", "x_seg13n", "x_seg3d"]}
+        "C16": ["x_struct4", "x_struct0", "x_peraxis", "x_peraxisd", "x_structk", "x_structz", "x_structzf", "x_structzc", "x_seg13e", "x_seg13f", "x_seg13n", "x_seg3d"]}
 
 RULE = {"C14": "one record per (catalogue state, format in csv/geff/internal); non-trivial = state with at least one edge",
         "C15": "one record per (catalogue state, EVERY subset of its nodes, format in csv/geff); non-trivial = selection whose ancestor closure adds nodes",
